@@ -392,7 +392,69 @@ def check_sequence(xs, mod, rem, K, aud_before, aud_after, rec=None):
                  sample=lambda: {"calls": xs, "supply_when": f"x % {mod} == {rem}", "outcomes": want[:6]})
 
 
+CAT_SRC = '''
+def f(x):
+    if x % 2:
+        a: tag.T
+    else:
+        a: int
+    b = a + x
+    return b
+'''
+
+
+def check_category_rounds(rounds, rec=None):
+    """One function declaring `a` at two sites with different annotations (odd x: tag.T, even x:
+    int); every round is one overriding probe supplying K - `f > a:@T` (covers the tagged
+    declaration only), `f > a` (covers both) or no probe at all - and some calls."""
+    import ptera
+    from ptera import probing
+
+    f, glb = PR.load(CAT_SRC, extra={"tag": ptera.tag})
+    want, got = [], []
+    try:
+        for how, K, xs in [r[:3] for r in rounds]:
+            import contextlib
+
+            sel = {"cat-T": "f > a:@T", "cat-plain": "f > a", "cat-none": None}[how]
+            with (probing(sel, env={"f": f}, overridable=True) if sel else contextlib.nullcontext()) as prb:
+                if sel:
+                    prb.override(K)
+                for x in xs:
+                    covered = how == "cat-plain" or (how == "cat-T" and x % 2 == 1)
+                    want.append(("ret", K + x) if covered else ("exc", "NameError-family"))
+                    try:
+                        got.append(("ret", f(x)))
+                    except BaseException as e:  # noqa
+                        if isinstance(e, (KeyboardInterrupt, SystemExit)):
+                            raise
+                        n = type(e).__name__
+                        got.append(("exc", "NameError-family" if n in ("UnboundLocalError", "NameError", "PteraNameError") else n))
+    except BaseException as e:
+        if isinstance(e, (KeyboardInterrupt, SystemExit)):
+            raise
+        HY.force_global_clean()
+        raise PropertyViolation("run", f"category rounds {rounds!r}: harness raised {HY.describe_exc(e)}")
+    finally:
+        if HY.global_state_problems():
+            HY.force_global_clean()
+        PR.forget(glb)
+    if got != want:
+        i = next(k for k in range(len(want)) if got[k] != want[k])
+        raise PropertyViolation(
+            "sequence", f"f declares `a: tag.T` for odd x and `a: int` for even x; rounds of one overriding probe each "
+                        f"(cat-T = 'f > a:@T', cat-plain = 'f > a', cat-none = no probe) {rounds!r}: outcome #{i} is "
+                        f"{got[i]!r}, expected {want[i]!r}; all outcomes {got!r}",
+            extra={"bucket": "category-rounds"})
+    if rec is not None:
+        kinds = [r[0] for r in rounds]
+        rec.case(h64(repr(rounds)), len(set(kinds)) >= 2, {"mode:category-rounds"},
+                 sample=lambda: {"rounds": [list(r) for r in rounds], "outcomes": want[:6]})
+
+
 def check_overlay_rounds(rounds, rec=None):
+    if rounds and rounds[0][0].startswith("cat-"):
+        return check_category_rounds(rounds, rec)
     """One long-lived Overlay instance; every round derives a with-block from it
     (base.tweaking / base.rewriting supplying `a`, or the bare base) and calls f: what one round
     supplied must not be supplied in a later round."""
@@ -403,11 +465,31 @@ def check_overlay_rounds(rounds, rec=None):
     tf = ptera.tooled(f)
     sel = ptera.select("f > a", env={"f": tf})
     base = Overlay()
+    late = Overlay()  # a second long-lived instance, configured in place between its uses
+    late.tap(ptera.select("f > b", env={"f": tf}), dest=[])  # (it listens to b from the start)
+    late_K = None
     want, got = [], []
     try:
         for rnd in rounds:
             how, K, xs = rnd[:3]
             nest = len(rnd) > 3 and rnd[3]
+            if how == "late-add":
+                # the supply is added to the `late` overlay itself (tweak, in place) - once
+                if late_K is None:
+                    late.tweak({sel: K})
+                    late_K = K
+                continue
+            if how == "late":
+                with late:
+                    for x in xs:
+                        want.append(("ret", late_K + x) if late_K is not None else ("exc", "PteraNameError"))
+                        try:
+                            got.append(("ret", tf(x)))
+                        except BaseException as e:  # noqa
+                            if isinstance(e, (KeyboardInterrupt, SystemExit)):
+                                raise
+                            got.append(("exc", type(e).__name__))
+                continue
             if how == "tweaking":
                 cm = base.tweaking({sel: K})
             elif how == "rewriting":
@@ -441,12 +523,12 @@ def check_overlay_rounds(rounds, rec=None):
         i = next(k for k in range(len(want)) if got[k] != want[k])
         raise PropertyViolation(
             "sequence", f"one Overlay instance, rounds {rounds!r} (tweaking/rewriting supply `a`, bare supplies "
-                        f"nothing): outcome #{i} is {got[i]!r}, expected {want[i]!r}; all outcomes {got!r}",
+                        f"nothing; `late` enters a second instance that supplies `a` only once `late-add` has added a tweak to it): outcome #{i} is {got[i]!r}, expected {want[i]!r}; all outcomes {got!r}",
             extra={"bucket": "overlay-rounds"})
     if rec is not None:
         kinds = {r[0] for r in rounds}
-        rec.case(h64(repr(rounds)), "bare" in kinds and len(kinds) >= 2,
-                 {"mode:overlay-rounds"} | ({"derived-overlay-nested"} if any(len(r) > 3 and r[3] for r in rounds) else set()),
+        rec.case(h64(repr(rounds)), ("bare" in kinds or "late" in kinds) and len(kinds) >= 2,
+                 {"mode:overlay-rounds"} | ({"overlay-configured-between-uses"} if [r[0] for r in rounds if r[0].startswith("late")][:2] == ["late", "late-add"] else set()) | ({"derived-overlay-nested"} if any(len(r) > 3 and r[3] for r in rounds) else set()),
                  sample=lambda: {"rounds": [list(r) for r in rounds], "outcomes": want[:6]})
 
 
@@ -488,8 +570,13 @@ def strategy():
 
     @st.composite
     def cases(draw):
+        if draw(st.integers(0, 47)) == 1:
+            rounds = draw(st.lists(st.tuples(st.sampled_from(["cat-T", "cat-plain", "cat-none"]), st.sampled_from([0, 500, 7]),
+                                             st.lists(st.integers(0, 7), min_size=1, max_size=3), st.just(False)),
+                                   min_size=2, max_size=4))
+            return ("overlay-rounds", rounds)
         if draw(st.integers(0, 23)) == 0:
-            rounds = draw(st.lists(st.tuples(st.sampled_from(["tweaking", "rewriting", "bare", "bare"]),
+            rounds = draw(st.lists(st.tuples(st.sampled_from(["tweaking", "rewriting", "bare", "bare", "late", "late", "late-add"]),
                                              st.sampled_from([0, 500, 7]),
                                              st.lists(st.integers(0, 7), min_size=1, max_size=3), st.booleans()),
                                    min_size=2, max_size=5))
